@@ -321,6 +321,9 @@ class Module:
             self.tree = ast.parse(self.source, filename=self.path)
         except SyntaxError as e:
             raise AnalysisError(f"{relpath} does not parse: {e}") from e
+        from . import canon
+
+        self.tree = canon.canonicalise(self.tree)
         self.alpha = {}
         if os.environ.get("PGV_NO_ALPHA") != "1":
             from . import alpha
